@@ -290,7 +290,10 @@ Definition phase_sb (c : config) (st : state) : bool :=
 
 Definition mu (n : nat) (sh : shape) (th : thread) : nat :=
   match md th with
-  | Run => 2 * (plen n sh - pc th) + 2 * remaining th + (match blk th with Some _ => 2 | None => 3 end)
+  | Run => match blk th with
+           | None => 2 * (plen n sh - pc th) + 2 * remaining th + 3
+           | Some _ => 2 * (plen n sh - S (pc th)) + 2 * remaining th + 4
+           end
   | Unwind => 2 * remaining th + (match blk th with Some _ => 2 | None => 1 end)
   | _ => 0
   end.
@@ -341,6 +344,10 @@ Definition window (c : config) (i r a k : nat) : list aop := flat_map (allocs_at
 
 (** The timed section: positions n+2 (second wait) ... 2n+5 (last wait). *)
 Definition own_allocs (c : config) (i r : nat) : list aop := window c i r (ssize c r + 2) (ssize c r + 4).
+
+(** The thread's slot in [raw_samples] after the round. *)
+Definition result (th : thread) : option (list aop) :=
+  match md th with Returned => Some (saved th) | _ => None end.
 
 (** (count, bytes) of allocations and of deallocations *)
 Fixpoint summarise (l : list aop) : (N * N) * (N * N) :=
